@@ -1,23 +1,34 @@
 #!/bin/bash
 # run.sh <property-id> quick|thorough      run a check (rebuilds from /repo's current working tree first)
 # run.sh <property-id> --replay <file>     re-execute one recorded case
+# VERIF_REPO=<dir> run.sh ...               build against another checkout of seq-db (scratch worktrees, snapshots); default /repo
 cd "$(dirname "$0")"
 . ./env.sh
 ID="$1"; shift
 mkdir -p bin evidence replays
-if [ -f /repo/go.sum ]; then cat /repo/go.sum go.sum 2>/dev/null | sort -u > go.sum.new && mv go.sum.new go.sum; fi
+REPO="${VERIF_REPO:-/repo}"
+if [ -f "$REPO/go.sum" ]; then cat "$REPO/go.sum" go.sum 2>/dev/null | sort -u > go.sum.new && mv go.sum.new go.sum; fi
+BIN=bin
+MODFLAG=""
+if [ "$REPO" != /repo ]; then
+  BIN="bin/alt-$(echo "$REPO" | md5sum | cut -c1-10)"
+  mkdir -p "$BIN"
+  sed "s#=> /repo#=> $REPO#" go.mod > "$BIN/go.mod"
+  cp go.sum "$BIN/go.sum"
+  MODFLAG="-modfile=$BIN/go.mod"
+fi
 build() {
-  # go's build cache makes this a no-op when nothing under /repo or /verif changed; a flock keeps parallel checks from racing on bin/
+  # go's build cache makes this a no-op when nothing under the repository or /verif changed; a flock keeps parallel checks from racing on bin/
   (
     flock 9
-    go build -tags verif -o bin/vcheck ./cmd/vcheck 2> bin/build.err || { echo "BUILD FAILED"; cat bin/build.err; exit 3; }
+    go build $MODFLAG -tags verif -o "$BIN/vcheck" ./cmd/vcheck 2> "$BIN/build.err" || { echo "BUILD FAILED"; cat "$BIN/build.err"; exit 3; }
     if [ "$1" = race ]; then
-      go build -race -tags verif -o bin/vcheck-race ./cmd/vcheck 2> bin/build-race.err || { echo "BUILD FAILED (race)"; cat bin/build-race.err; exit 3; }
+      go build $MODFLAG -race -tags verif -o "$BIN/vcheck-race" ./cmd/vcheck 2> "$BIN/build-race.err" || { echo "BUILD FAILED (race)"; cat "$BIN/build-race.err"; exit 3; }
     fi
-  ) 9> bin/.lock
+  ) 9> "$BIN/.lock"
 }
 case "$ID" in
   C07|C17|C18) build race || exit 3 ;;
   *) build || exit 3 ;;
 esac
-exec ./bin/vcheck run "$ID" "$@"
+exec "./$BIN/vcheck" run "$ID" "$@"
